@@ -254,6 +254,80 @@ Proof.
   destruct res; inversion H; subst; cbn; auto.
 Qed.
 
+(* message types the channel has no handler for (DISCONNECT, DESCRIPTOR_REQUEST/RESPONSE, REQUEST_CANCEL
+   and anything else the parser lets through) change nothing and reach nobody *)
+Lemma other_types cl ok r m :
+  m_type m <> REQUEST -> m_type m <> RESPONSE -> m_type m <> RESPONSE_CANCEL ->
+  m_type m <> RESPONSE_FAILED -> m_type m <> RESPONSE_NOT_IMPLEMENTED -> m_type m <> STREAM_REQUEST ->
+  dispatch method_kind req_ok service cl ok r m = (r, []).
+Proof.
+  intros H1 H2 H3 H4 H5 H6. unfold dispatch, resp_outcome.
+  apply N.eqb_neq in H1, H2, H3, H4, H5, H6. rewrite H1, H2, H3, H4, H5, H6. reflexivity.
+Qed.
+
+(* a stream request naming an ordinary (non-streaming) method, or arriving when no service is set, is
+   refused: nothing is called, nothing is sent *)
+Lemma stream_request_refused cl ok r m :
+  m_type m = STREAM_REQUEST -> method_kind (m_name m) <> 0 -> method_kind (m_name m) <> 2 ->
+  dispatch method_kind req_ok service cl ok r m = (r, []).
+Proof.
+  intros Ht K0 K2. unfold dispatch, resp_outcome. rewrite Ht. cbn.
+  unfold handle_stream_request. apply N.eqb_neq in K0, K2. rewrite K0, K2.
+  destruct (method_kind (m_name m) =? 3); reflexivity.
+Qed.
+
+(* the service is only ever called for a REQUEST to a method it has (with a response object and a
+   completion callback: the request is registered), or for a STREAM_REQUEST to a streaming method
+   (the only case with NULL response / done); always with a request buffer that parsed *)
+Lemma service_called_only_if cl ok r m r' evs nm rq :
+  dispatch method_kind req_ok service cl ok r m = (r', evs) -> In (EvService nm rq) evs ->
+  nm = m_name m /\ rq = m_buf m /\ req_ok (m_buf m) = true /\
+  ((m_type m = REQUEST /\ method_kind (m_name m) <> 0 /\ method_kind (m_name m) <> 3) \/
+   (m_type m = STREAM_REQUEST /\ method_kind (m_name m) = 2)).
+Proof.
+  intros H Hi.
+  assert (Hs : forall c o r0 mm r1 e b, send_msg c o r0 mm = (r1, e, b) -> ~ In (EvService nm rq) e).
+  { intros c o r0 mm r1 e b Hx Hin. unfold send_msg in Hx. destruct (dead r0 || c); [inversion Hx; subst; auto|].
+    destruct o; inversion Hx; subst; destruct Hin as [Hin|[]]; discriminate. }
+  unfold dispatch in H.
+  destruct (m_type m =? REQUEST) eqn:Et.
+  - apply N.eqb_eq in Et. unfold handle_request in H.
+    destruct (method_kind (m_name m) =? 3) eqn:K3; [inversion H; subst; contradiction|].
+    destruct (method_kind (m_name m) =? 0) eqn:K0.
+    + destruct (send_msg _ _ _ _) as [[r1 e1] b1] eqn:E. inversion H; subst. exfalso. eapply Hs; eauto.
+    + destruct (req_ok (m_buf m)) eqn:Eq; cbn [negb] in H; [|inversion H; subst; contradiction].
+      apply N.eqb_neq in K3, K0.
+      assert (Hgoal : In (EvService nm rq) [EvService (m_name m) (m_buf m)] ->
+                      nm = m_name m /\ rq = m_buf m /\ true = true /\
+                      (m_type m = REQUEST /\ method_kind (m_name m) <> 0 /\ method_kind (m_name m) <> 3 \/
+                       m_type m = STREAM_REQUEST /\ method_kind (m_name m) = 2)).
+      { intros [Hx|[]]. inversion Hx; subst. auto 10. }
+      destruct (supersede cl ok r (m_id m)) as [r1 evs1] eqn:E1.
+      assert (H1 : ~ In (EvService nm rq) evs1).
+      { unfold supersede in E1. destruct (lookup _ _); [|inversion E1; subst; auto].
+        destruct (send_msg _ _ _ _) as [[r2 e2] b2] eqn:E. inversion E1; subst. eapply Hs; eauto. }
+      destruct (service (m_name m) (m_buf m)) as [res|].
+      * destruct (request_complete _ _ _ _ _) as [r3 evs3] eqn:E3. inversion H; subst.
+        assert (H3 : ~ In (EvService nm rq) evs3).
+        { unfold request_complete in E3. destruct (memN _ _); [inversion E3; subst; intros [Hx|[]]; discriminate|].
+          destruct (key_of _ _); [|inversion E3; subst; auto].
+          destruct (send_msg _ _ _ _) as [[r4 e4] b4] eqn:E. inversion E3; subst.
+          intros Hin. apply in_app_or in Hin as [Hin|[Hin|[]]]; [eapply Hs; eauto|discriminate]. }
+        apply in_app_or in Hi as [Hi|[Hi|Hi]]; [tauto| |tauto]. apply Hgoal. left. exact Hi.
+      * inversion H; subst. apply in_app_or in Hi as [Hi|Hi]; [tauto|]. apply Hgoal. exact Hi.
+  - destruct (resp_outcome m) as [o|].
+    + unfold handle_response in H. destruct (lookup _ _); inversion H; subst; [destruct Hi as [Hx|[]]; discriminate|contradiction].
+    + destruct (m_type m =? STREAM_REQUEST) eqn:Es; [|inversion H; subst; contradiction].
+      apply N.eqb_eq in Es. unfold handle_stream_request in H.
+      destruct (method_kind (m_name m) =? 3); [inversion H; subst; contradiction|].
+      destruct (method_kind (m_name m) =? 0).
+      * destruct (send_msg _ _ _ _) as [[r1 e1] b1] eqn:E. inversion H; subst. exfalso. eapply Hs; eauto.
+      * destruct (method_kind (m_name m) =? 2) eqn:K2; cbn [negb] in H; [|inversion H; subst; contradiction].
+        apply N.eqb_eq in K2.
+        destruct (req_ok (m_buf m)) eqn:Eq; cbn [negb] in H; [|inversion H; subst; contradiction].
+        inversion H; subst. destruct Hi as [Hx|[]]. inversion Hx; subst. auto 10.
+Qed.
+
 End Final.
 
 (* a write that fails releases the descriptor and runs the close handler, once; nothing is sent *)
